@@ -32,7 +32,7 @@ func (g *gen) keyTable(n int, simple bool) []string {
 	base := g.rbytes(36, g.chance(50))
 	long := base + g.rbytes(pick(g, 156, 157, 180, 200, 400), g.chance(50))
 	for len(ks) < n {
-		switch g.IntN(14) {
+		switch g.IntN(15) {
 		case 0:
 			ks = append(ks, base)
 		case 1:
@@ -61,6 +61,9 @@ func (g *gen) keyTable(n int, simple bool) []string {
 			ks = append(ks, strings.Repeat("A", pick(g, 36, 72, 191, 192, 1000)))
 		case 12:
 			ks = append(ks, g.rbytes(192+g.IntN(400), true))
+		case 13:
+			// URL-sized keys whose file path is longer than PATH_MAX (a few kilobytes of query string)
+			ks = append(ks, "http://a.test/r?q="+g.rbytes(pick(g, 2900, 3100, 3300, 8000), true))
 		default:
 			ks = append(ks, g.rbytes(1+g.IntN(60), true))
 		}
